@@ -11,7 +11,7 @@ import string as _string
 
 import z3
 
-from .values import (Sym, Obj, SStr, Opaque, Unsupported, PyRaise, arith, compare,
+from .values import (FmtStr, Sym, Obj, SStr, Opaque, Unsupported, PyRaise, arith, compare,
                      sym_abs, sym_pow, to_bool, to_z3_num, lift, mk_str, str_chars,
                      And, Or, Not, Implies, Ite, simp, real_val)
 from .ctx import Ctx, Infeasible, CutPath
@@ -106,6 +106,7 @@ class Executor:
         self.global_cache = {}
         self.assert_mode = 'assume'          # 'assume' | 'oblige' | 'raise'
         self.loop_hooks = {}                 # (fullname, ordinal) -> callable(ex, ctx, node, env)
+        self.closure_contracts = {}          # nested-function name -> callable(ex, ctx, closure, args, kwargs)
         self.stmt_hooks = {}                 # (fullname, source prefix) -> callable(ex, ctx, env), run AFTER the statement
         self.max_unroll = 64
         self.func_stack = []
@@ -223,6 +224,10 @@ class Executor:
         if isinstance(f, FuncInfo):
             return self.call_repo(f, args, kwargs, None)
         if isinstance(f, Closure):
+            h = self.closure_contracts.get(f.name)
+            if h is not None and not getattr(self, '_bypass_closure_contract', False):
+                return h(self, self.ctx, f, list(args), dict(kwargs))
+            self._bypass_closure_contract = False
             env = Env(f.module, parent=f.env)
             self._bind_params(f.node, env, args, dict(kwargs), None, None)
             if isinstance(f.node, ast.Lambda):
@@ -245,6 +250,12 @@ class Executor:
         if callable(f) and getattr(f, '_pyvc_spec', False):
             return f(*args, **kwargs)
         raise Unsupported('call of %r' % (f,))
+
+    def call_closure_body(self, f, args, kwargs=None):
+        """Execute the real body of a nested function once, even if it has a contract
+        (recursive calls inside it use the contract again)."""
+        self._bypass_closure_contract = True
+        return self.call(f, args, kwargs or {})
 
     def call_repo(self, fi, args, kwargs, self_obj):
         c = self.contracts.get(fi.fullname)
@@ -674,21 +685,29 @@ class Executor:
 
     def ev_JoinedStr(self, n, env):
         parts = []
+        symbolic = False
         for v in n.values:
             if isinstance(v, ast.Constant):
-                parts.append(v.value)
+                parts.append(('lit', v.value))
             else:
                 x = self.eval(v.value, env)
-                if isinstance(x, (Sym, SStr, Obj, Opaque)):
-                    return Opaque('f-string')
-                try:
-                    spec = ''
-                    if v.format_spec is not None:
-                        spec = self.eval(v.format_spec, env)
-                    parts.append(format(x, spec))
-                except Exception:
-                    return Opaque('f-string')
-        return ''.join(parts)
+                spec = ''
+                if v.format_spec is not None:
+                    spec = self.eval(v.format_spec, env)
+                if isinstance(x, (Sym, SStr, Obj, Opaque)) or not isinstance(spec, str):
+                    symbolic = True
+                    parts.append(('fmt', '{:%s}' % spec if isinstance(spec, str) else '{}', [x], {}))
+                else:
+                    try:
+                        if v.conversion == 115:
+                            x = str(x)
+                        parts.append(('lit', format(x, spec)))
+                    except Exception:
+                        symbolic = True
+                        parts.append(('fmt', '{:%s}' % spec, [x], {}))
+        if symbolic:
+            return FmtStr(parts)
+        return ''.join(p[1] for p in parts)
 
     def ev_Attribute(self, n, env):
         o = self.eval(n.value, env)
@@ -891,6 +910,9 @@ class Executor:
             return self.call_repo(b.cls.find_method(rmeth), [a], {}, b)
         if isinstance(a, (str, SStr)) and isinstance(b, (str, SStr)) and sym == '+':
             return mk_str(str_chars(a) + str_chars(b))
+        if sym == '+' and (isinstance(a, FmtStr) or isinstance(b, FmtStr)) and \
+                isinstance(a, (str, SStr, FmtStr)) and isinstance(b, (str, SStr, FmtStr)):
+            return FmtStr(FmtStr.of(a) + FmtStr.of(b))
         if isinstance(a, Sym) or isinstance(b, Sym):
             if sym == '/':
                 if self.ctx.branch(compare('==', b, 0)):
